@@ -5,6 +5,12 @@ CLAIMS = {
  "C06": ("other", "constant propagation over const fns + literal-table rules + symbolic normal form of the expansion loop",
    "Decides the table- and shape-level clauses: n/m/k/q of all 21 codes vs ETSI tables and internal relations; address tables (row count, range, distinctness, degree profile, pinned values); the quasi-cyclic expansion and dual-diagonal part in Code::h as a symbolic normal form; staircase reader/writer agreement (so the linear-time encoder arm is taken); thorough adds a table-level 4-cycle test. Matrix-level girth 6 and equality with a reference matrix beyond tables+shape are not decided (value computation = running the construction).",
    "Trusted: my transcription of ETSI Tables 5a/5b/7a/7b and the degree profiles; the pinned address tables are a tree reference (values of the pinned commit)."),
+ "C07": ("other", "constant propagation of guards + effect tracing of every insert/toggle call site into a protograph table; literal-table rules; symbolic normal forms",
+   "Decides the table and placement clauses: (rate,k)->M table, k=(blocks-3)M, 3M x (k+3M) allocation, every insert/toggle of AR4JACode::h normalised per rate to (row block, column block, I|Pi_k) and compared with the Blue Book protograph (block-column degrees incl. punctured degree 6 follow), insert-then-toggle GF(2) discipline, theta_k values, phi_k shape/bounds/pinned values, index shapes and the pi_k formula, C2 circulant table and expansion. Rank, invertibility and girth of the expanded matrices are value computations and are not decided.",
+   "Trusted: my transcription of the Blue Book M table, theta_k and protograph; phi_k and the C2 circulants are tree references confirmed structurally."),
+ "C14": ("other", "match-table extraction + symbolic dataflow of the demodulator sets + rational normal forms of the formulas",
+   "Decides: 8PSK modulator table = DVB-S2 Gray mapping as exact symbolic points (unit energy, Gray), BPSK 0->-1/1->+1; the six maxstar sets of the 8PSK demodulator are exactly the bit=0/bit=1 partitions of the modulator's own table, combined with the right sign and emitted in the modulator's bit order; dot/maxstar/scale formulas as normal forms, BPSK scale tied to the modulator's symbols. Floating-point closeness to log(P0/P1) is not decided.",
+   "Trusted: DVB-S2 8PSK mapping as transcribed; exp/ln_1p/max/abs/sqrt treated as the mathematical functions."),
  "C18": ("proof", "static table extraction from type-checked HIR/MIR and cross-table agreement",
    "All 36 names are decided as agreement of five finite tables (enum, factory arms from HIR and again from MIR, FromStr, Display, clap ValueEnum) plus the naming law and the variant documentation; every row is an obligation and all must discharge. Finite and exhaustive, so a table-level proof is the right level.",
    "Trusted: rustc's HIR/MIR for the crate, match-arm semantics. The behaviour of the generic decoders themselves is C01/C03, not C18."),
